@@ -78,6 +78,9 @@ impl BlsSerde for Bls12381G2Impl {
     fn deserialize_scalar<'de, D: Deserializer<'de>>(
         deserializer: D,
     ) -> Result<<Self::PublicKey as Group>::Scalar, D::Error> {
+        if deserializer.is_human_readable() {
+            return <Scalar as Deserialize<'de>>::deserialize(checked_hex_str(deserializer, 64)?);
+        }
         <Scalar as Deserialize<'de>>::deserialize(deserializer)
     }
 
@@ -90,12 +93,20 @@ impl BlsSerde for Bls12381G2Impl {
     fn deserialize_signature<'de, D: Deserializer<'de>>(
         deserializer: D,
     ) -> Result<Self::Signature, D::Error> {
+        if deserializer.is_human_readable() {
+            let hex_len = 2 * <Self::Signature as GroupEncoding>::Repr::default().as_ref().len();
+            return Self::Signature::deserialize(checked_hex_str(deserializer, hex_len)?);
+        }
         Self::Signature::deserialize(deserializer)
     }
 
     fn deserialize_public_key<'de, D: Deserializer<'de>>(
         deserializer: D,
     ) -> Result<Self::PublicKey, D::Error> {
+        if deserializer.is_human_readable() {
+            let hex_len = 2 * <Self::PublicKey as GroupEncoding>::Repr::default().as_ref().len();
+            return Self::PublicKey::deserialize(checked_hex_str(deserializer, hex_len)?);
+        }
         Self::PublicKey::deserialize(deserializer)
     }
 
